@@ -15,6 +15,7 @@ pub fn exec(w: &mut World, name: &str, op: &Value) -> R<Value> {
         "entry.sm9.mod_n_from_hash" => mod_n_from_hash(w, op),
         "entry.sm2.kdf" => sm2_kdf(w, op),
         "entry.sm2.compute_za" => sm2_za(w, op),
+        "entry.soak.sm2" => soak_sm2(w, op),
         _ => Err(format!("unknown op {name}")),
     }
 }
@@ -153,4 +154,119 @@ fn sm2_za(w: &mut World, op: &Value) -> R<Value> {
     let ic = if id.len() > 8191 { "id.len>8191" } else { "id.len<=8191" };
     w.check_class(&["C20"], "sm2.compute_za", &class, ic, case, "");
     Ok(json!({"class": class.as_str()}))
+}
+
+/// A long history in ONE process and thread: `n` keys, each with its own identity and message, each
+/// signs, verifies, encrypts and decrypts once. Whatever the library keeps between calls (tables,
+/// memoised values, counters) sees `n` distinct (identity, key) pairs. Every call must return, and
+/// (riding along for C03/C05) every round trip must hold. A call that never returns is caught by the
+/// watchdog, which this op re-arms before every library call.
+fn soak_sm2(w: &mut World, op: &Value) -> R<Value> {
+    use crate::simrng::{run_lib, RngScript};
+    use gm_sm2::key::{Sm2Model, Sm2PrivateKey};
+    use num_bigint::BigUint;
+    let n = gu(op, "n")? as usize;
+    let seed = gu(op, "seed")?;
+    if gs_opt(op, "kind") == Some("cheap") {
+        return soak_cheap(w, n, seed);
+    }
+    let order = crate::refmodel::sm2::with_curve(|c| c.n.clone());
+    let mut p = crate::prng::Prng::new(seed);
+    let base = BigUint::from_bytes_be(&p.bytes32()) % (&order - 2u32);
+    let mut done = 0usize;
+    let mut bad: Option<(usize, String)> = None;
+    for k in 0..n {
+        crate::runner::touch();
+        let d = crate::refmodel::sm2::be32(&((&base + BigUint::from(k as u64) * 0x1_0000_0001u64) % (&order - 2u32) + 1u32));
+        let id = glue::static_id(format!("soak-{seed:x}-{k}").as_bytes()).unwrap();
+        let msg: Vec<u8> = (0..(k % 48) + 1).map(|j| (k + j) as u8).collect();
+        let script = RngScript { cands: vec![], filler: seed ^ (k as u64).wrapping_mul(0x9E37_79B9_7F4A_7C15), real: false };
+        let (out, _) = run_lib(&script, || -> Result<(bool, bool), String> {
+            let sk = Sm2PrivateKey::new(&d).map_err(|e| format!("{e:?}"))?;
+            let sig = sk.sign(Some(id), &msg).map_err(|e| format!("sign: {e:?}"))?;
+            let v = sk.public_key.verify(Some(id), &msg, &sig).is_ok();
+            let ct = sk.public_key.encrypt(&msg, false, Sm2Model::C1C3C2).map_err(|e| format!("encrypt: {e:?}"))?;
+            let pt = sk.decrypt(&ct, false, Sm2Model::C1C3C2).map_err(|e| format!("decrypt: {e:?}"))?;
+            Ok((v, pt == msg))
+        });
+        match out {
+            Outcome::Done(Ok((true, true))) => done += 1,
+            Outcome::Done(Ok((v, r))) => bad = Some((k, format!("round trip: verify(sign)={v} decrypt(encrypt)==M: {r}"))),
+            Outcome::Done(Err(e)) => bad = Some((k, format!("Err {e}"))),
+            Outcome::Panic(m) => bad = Some((k, format!("panic {m}"))),
+            Outcome::Hang => bad = Some((k, "random source drained (hang)".into())),
+        }
+        if bad.is_some() {
+            break;
+        }
+    }
+    w.bump_by("call.sm2.soak-calls", 4 * done as u64);
+    w.bump_by("history.soak-distinct-keys", done as u64);
+    let case = fnv(&[b"soak", &seed.to_le_bytes(), &(n as u64).to_le_bytes()]);
+    let key = json!({"entry":"sm2.sign+verify+encrypt+decrypt","class":"long-history","outcome": if bad.is_some() { "fails" } else { "Ok" }});
+    w.check("C20", "O20.long-history", bad.is_none(), case, key, || {
+        let (k, e) = bad.clone().unwrap();
+        format!("after {k} earlier keys in the same process, call group {k} ended in: {e}")
+    });
+    Ok(json!({"done": done}))
+}
+
+/// The same idea on the entry points that cost microseconds: the ZA helper with `n` distinct
+/// identities over 256 public keys, the KDF with `n` distinct Z, SM4 with `n` distinct keys
+/// (construct, encrypt a block, decrypt it), SM9's hash-to-range with `n` distinct inputs.
+fn soak_cheap(w: &mut World, n: usize, seed: u64) -> R<Value> {
+    use gm_sm2::key::Sm2PrivateKey;
+    let mut p = crate::prng::Prng::new(seed);
+    let mut points = vec![];
+    for _ in 0..256 {
+        let mut d = p.bytes32();
+        d[0] &= 0x7f;
+        d[31] |= 1;
+        match run_lib_norng(|| Sm2PrivateKey::new(&d).map(|sk| sk.public_key.point)) {
+            Outcome::Done(Ok(pt)) => points.push(pt),
+            _ => return Err("soak: key set-up failed".into()),
+        }
+    }
+    let mut bad: Option<(usize, String)> = None;
+    let mut done = 0usize;
+    for k in 0..n {
+        crate::runner::touch();
+        let id = format!("soak-{seed:x}-{k}");
+        let pt = points[k % points.len()];
+        let mut key = [0u8; 16];
+        key[..8].copy_from_slice(&(k as u64).to_le_bytes());
+        key[8..].copy_from_slice(&seed.to_le_bytes());
+        let block = p.bytes32()[..16].to_vec();
+        let out = run_lib_norng(|| -> Result<bool, String> {
+            gm_sm2::util::compute_za(&id, &pt).map_err(|e| format!("compute_za: {e:?}"))?;
+            let z = gm_sm2::util::kdf(id.as_bytes(), (k % 97) + 1);
+            let c = Sm4Cipher::new(&key).map_err(|e| format!("sm4 new: {e:?}"))?;
+            let ct = c.encrypt(&block).map_err(|e| format!("sm4 encrypt: {e:?}"))?;
+            let back = c.decrypt(&ct).map_err(|e| format!("sm4 decrypt: {e:?}"))?;
+            let mut ha = [0u8; 40];
+            ha[..32].copy_from_slice(&gm_sm3::sm3_hash(id.as_bytes()));
+            ha[32..].copy_from_slice(&(k as u64).to_le_bytes());
+            let _ = gm_sm9::fields::mod_n_from_hash(&ha);
+            Ok(back == block && z.len() == (k % 97) + 1)
+        });
+        match out {
+            Outcome::Done(Ok(true)) => done += 1,
+            Outcome::Done(Ok(false)) => bad = Some((k, "SM4 block round trip or KDF length wrong".into())),
+            Outcome::Done(Err(e)) => bad = Some((k, format!("Err {e}"))),
+            Outcome::Panic(m) => bad = Some((k, format!("panic {m}"))),
+            Outcome::Hang => bad = Some((k, "hang".into())),
+        }
+        if bad.is_some() {
+            break;
+        }
+    }
+    w.bump_by("call.soak-cheap-calls", 5 * done as u64);
+    w.bump_by("history.soak-cheap-distinct-inputs", done as u64);
+    let case = fnv(&[b"soak-cheap", &seed.to_le_bytes(), &(n as u64).to_le_bytes()]);
+    let key = json!({"entry":"sm2.compute_za+kdf,sm4.block,sm9.mod_n_from_hash","class":"long-history","outcome": if bad.is_some() { "fails" } else { "Ok" }});
+    w.check("C20", "O20.long-history", bad.is_none(), case, key, || {
+        let (k, e) = bad.clone().unwrap();
+        format!("after {k} earlier distinct inputs in the same process, call group {k} ended in: {e}")
+    });
+    Ok(json!({"done": done}))
 }
